@@ -193,6 +193,9 @@ class Sched:
             return
         nxt = self._pick(r, prefer)
         self.cur = nxt
+        if nxt != me and self.ctx is not None and self.ctx.keep_trace:
+            ms = self.threads.get(me)
+            self.ctx.trace('[sched] %s (%s%s) -> %s' % (me, ms.state if ms else '?', (' on %s' % (ms.waiting_on[0],)) if ms and ms.state == 'blocked' and ms.waiting_on else '', nxt))
         if nxt != me:
             self.threads[nxt].sem.release()
             if not exiting:
